@@ -102,6 +102,16 @@ func stableOrderIn(p *Prog, l *Ledger, rule, fname string, isList func(v ssa.Val
 			return
 		}
 	}
+	if name == "sort.SliceStable" {
+		if handled, ok, why, _ := decoratedStableSort(p, fn, c, isList); handled {
+			if ok {
+				l.Prove(rule, fname, key, pos, why)
+			} else {
+				l.Fail(rule, fname, key, pos, fname+": "+why)
+			}
+			return
+		}
+	}
 	if !isList(sorted) {
 		l.Fail(rule, fname, key, pos, "the sorted slice is not the receiver's Items field")
 		return
@@ -338,6 +348,26 @@ func ruleMergeShape(p *Prog, l *Ledger, tier string) {
 					}
 				}
 			}
+			// the store made by a helper into the map it receives: add(dst, src) called as s.F = add(s.F, i.F)
+			var viaParam *ssa.Parameter
+			if f != "Regions" && f != "Styles" {
+				if par, made := mapOrigin(mu.Map); par != nil && mu.Parent() != fn {
+					if site, ok := p.siteIn(fn, mu).(*ssa.Call); ok && site.Call.StaticCallee() == mu.Parent() {
+						for k, q := range mu.Parent().Params {
+							if q == par && k < len(site.Call.Args) {
+								if _, f2, b2 := loadedField(site.Call.Args[k]); b2 != nil && (f2 == "Regions" || f2 == "Styles") {
+									f, base, viaParam = f2, b2, par
+									if made && !storedIntoField(site, base, f2) {
+										nMU++
+										l.Fail(rule, "Subtitles.Merge", l.Key(rule, "Subtitles.Merge", "add-if-absent", f), p.Pos(site.Pos()), FnName(mu.Parent())+" may allocate the map it fills, and Merge does not store what it returns into the receiver's "+f2+": definitions added to a receiver without a map are lost")
+										f = ""
+									}
+								}
+							}
+						}
+					}
+				}
+			}
 			if f != "Regions" && f != "Styles" {
 				continue
 			}
@@ -369,6 +399,11 @@ func ruleMergeShape(p *Prog, l *Ledger, tier string) {
 				_, lf, lbase := loadedField(lk.X)
 				if lf == f && lbase == base && a.key(lk.Index) == a.key(mu.Key) {
 					ok2 = true
+				}
+				if viaParam != nil {
+					if lp, _ := mapOrigin(lk.X); lp == viaParam && a.key(lk.Index) == a.key(mu.Key) {
+						ok2 = true
+					}
 				}
 			}
 			if ok2 {
@@ -693,6 +728,56 @@ func returnsWithout(from, b *ssa.BasicBlock) bool {
 				seen[sc] = true
 				work = append(work, sc)
 			}
+		}
+	}
+	return false
+}
+
+// mapOrigin: the map value v is a parameter of its function, possibly replaced on the way by a map made on the spot
+// (dst := param; if dst == nil { dst = make(…) }; carried round a loop): returns that parameter and whether a fresh map
+// may stand in for it.  nil when the value has any other origin.
+func mapOrigin(v ssa.Value) (*ssa.Parameter, bool) {
+	var par *ssa.Parameter
+	made, bad := false, false
+	seen := map[ssa.Value]bool{}
+	var walk func(x ssa.Value)
+	walk = func(x ssa.Value) {
+		if seen[x] {
+			return
+		}
+		seen[x] = true
+		switch y := x.(type) {
+		case *ssa.Phi:
+			for _, e := range y.Edges {
+				walk(e)
+			}
+		case *ssa.MakeMap:
+			made = true
+		case *ssa.Parameter:
+			if par != nil && par != y {
+				bad = true
+			}
+			par = y
+		default:
+			bad = true
+		}
+	}
+	walk(v)
+	if bad {
+		return nil, false
+	}
+	return par, made
+}
+
+// storedIntoField: the result of the call is stored into field f of the object base points to.
+func storedIntoField(call *ssa.Call, base ssa.Value, f string) bool {
+	for _, r := range *call.Referrers() {
+		st, ok := r.(*ssa.Store)
+		if !ok || st.Val != ssa.Value(call) {
+			continue
+		}
+		if fa, ok := st.Addr.(*ssa.FieldAddr); ok && fa.X == base && fieldName(fa.X.Type(), fa.Field) == f {
+			return true
 		}
 	}
 	return false
